@@ -28,7 +28,7 @@ def run(rep, rng, tier):
     pk, pkq, nc = [], [], []
 
     def add_peaks(xs, pt, exact_int=True):
-        r = guarded(get_peak_array_indices, np.array(xs, dtype=float), ptype=PT[pt])
+        r = core.guarded_pure(get_peak_array_indices, np.array(xs, dtype=float), ptype=PT[pt])
         args = {'values': list(map(float, xs)), 'ptype': PT[pt]}
         site = 'get_peak_array_indices[%s]' % PT[pt]
         if isinstance(r, ImplError):
@@ -43,7 +43,7 @@ def run(rep, rng, tier):
                             nontrivial=nontrivial(xs), klass=site + '/real'))
 
     def add_ncyc(xs, opt, start):
-        r = guarded(get_n_cyc_array, np.array(xs, dtype=float), opt=opt, start=start)
+        r = core.guarded_pure(get_n_cyc_array, np.array(xs, dtype=float), opt=opt, start=start)
         site = 'get_n_cyc_array[%s,%s]' % (opt, start)
         args = {'values': list(map(float, xs)), 'opt': opt, 'start': start}
         if isinstance(r, ImplError):
